@@ -161,7 +161,8 @@ fn nonnumeric_rows(out: &mut Out) {
 
 macro_rules! amp_rows {
     ($qname:expr, $ty:ty, $unit:expr, $out:expr) => {{
-        for base in ["", $unit, &format!("M{}", $unit), &format!("K{}", $unit), "X"] {
+        // (bases S / MS / K / P with an empty tail: suffixes that are proper tails of a specifier, shorter than it)
+        for base in ["", $unit, &format!("M{}", $unit), &format!("K{}", $unit), "X", "S", "MS", "K", "P", "k"] {
             for tail in ["", "PK", "PP", "RMS", "pk", "Pp", "rms", "PKK", "RM"] {
                 let suf = format!("{base}{tail}");
                 for lit in ["1", "2.5", "-4e3"] {
